@@ -20,7 +20,7 @@ the method state after `numberOfGlobalTrials - 1` iterations).  The certificate 
 holds literally when the last trial did not change `M`.
 
 * `C01_solve_dim1`: `N = 1`, any evolvent `p.image` along which the objective is `L`-Lipschitz.
-* `C01_solve_dimN`: over ℝ, `2 ≤ N ≤ 5`, `p = Solver.mk c`, with the grid term
+* `C01_solve_dimN`: over ℝ, `Ev.DimOK N`, `p = Solver.mk c`, with the grid term
   `L·2^-m·(√(N+3) + √N/2)` and w.r.t. the minimum over the whole BOX.
 -/
 set_option linter.unusedSectionVars false
@@ -118,8 +118,8 @@ open Ev
 attribute [local instance] Ev.Num.floorTrunc
 variable [Fns ℝ]
 
-/-- **C01 for `Solve`, `2 ≤ N ≤ 5` (over ℝ), on the box.**  Let `c` be a solver configuration with
-`2 ≤ N ≤ 5`, bounds `lower_i < upper_i`, `1 < r`; let the objective `fb` be pure and total, and let `L`
+/-- **C01 for `Solve`, `Ev.DimOK N` (over ℝ), on the box.**  Let `c` be a solver configuration with
+`Ev.DimOK N`, bounds `lower_i < upper_i`, `1 < r`; let the objective `fb` be pure and total, and let `L`
 be its Lipschitz constant on the box normalised to unit side (`fb ∘ __TransformP2D` is `L`-Lipschitz on
 the cube `[-1/2,1/2]^N`, Euclidean norm; e.g. `L = L_box · max_i (upper_i - lower_i)` by
 `Ev.C01_lip_normalised`).  If `Solve` on a fresh solver stopped by accuracy, then with `M⁻` the estimate
@@ -129,7 +129,7 @@ in force at the last selection (`1 ≤ M⁻ ≤ M_final`), `K_N = 2^(3-1/N)·√
 2. if `K_N·L ≤ r` the same bound holds unconditionally;
 3. if the last trial did not change `M`, the bound holds with `M_final` under `K_N·L ≤ r·M_final`;
 4. `sf.Z` is the smallest recorded value. -/
-theorem C01_solve_dimN (c : Solver.Config ℝ) (hn : 2 ≤ c.n ∧ c.n ≤ 5) (hl : c.lower.length = c.n)
+theorem C01_solve_dimN (c : Solver.Config ℝ) (hn : Ev.DimOK c.n) (hl : c.lower.length = c.n)
     (hu : c.upper.length = c.n)
     (hlt : ∀ i (h1 : i < c.lower.length) (h2 : i < c.upper.length), c.lower[i] < c.upper[i])
     (hL : FnsLaws ℝ) (hr : 1 < c.r) (fb : List ℝ → ℝ) (L : ℝ)
@@ -157,7 +157,7 @@ theorem C01_solve_dimN (c : Solver.Config ℝ) (hn : 2 ≤ c.n ∧ c.n ≤ 5) (h
           L * (1 / 2 ^ c.evolventDensity) * (Real.sqrt (c.n + 3) + Real.sqrt c.n / 2)) ∧
       (∀ e ∈ (solve (Solver.mk c) (pureObj fb) refine {}).evals, sf.Z ≤ e.2) ∧
       (∃ e ∈ (solve (Solver.mk c) (pureObj fb) refine {}).evals, e.2 = sf.Z) := by
-  have hn0 : 0 < (Solver.mk c).n := by show 0 < c.n; omega
+  have hn0 : 0 < (Solver.mk c).n := by show 0 < c.n; exact hn.pos
   have hr' : 1 < (Solver.mk c).r := hr
   obtain ⟨K, psk, idsk, s, pr, sf, -, -, -, hre, hlog, hpr, hlt', heps, hreK, hsf, hZ, hM, -, hmb⟩ :=
     solve_last_step hL hr' hn0 fb refine hacc
@@ -216,7 +216,7 @@ example : ∃ (p : Params ℝ) (g : List ℝ → ℝ) (L : ℝ),
 coordinate up to a shift, so `fb ∘ p2d` is `1`-Lipschitz on the cube — `r = 18 ≥ K_2`, `eps = 2`:
 all hypotheses of `C01_solve_dimN` hold (and the flat-case premise `K_2·L ≤ r`). -/
 example : ∃ (c : Solver.Config ℝ) (fb : List ℝ → ℝ) (L : ℝ),
-    (2 ≤ c.n ∧ c.n ≤ 5) ∧ c.lower.length = c.n ∧ c.upper.length = c.n ∧
+    (Ev.DimOK c.n) ∧ c.lower.length = c.n ∧ c.upper.length = c.n ∧
     (∀ i (h1 : i < c.lower.length) (h2 : i < c.upper.length), c.lower[i] < c.upper[i]) ∧
     FnsLaws ℝ ∧ 1 < c.r ∧ LipCube c.n (fun y => fb (p2d c.lower c.upper y)) L ∧
     (∃ d, (solve (Solver.mk c) (pureObj fb) (fun _ => none) {}).minDelta = some d ∧ d < c.eps) ∧
@@ -232,7 +232,7 @@ example : ∃ (c : Solver.Config ℝ) (fb : List ℝ → ℝ) (L : ℝ),
     intro y hy
     match y, hy.1 with
     | [a, b], _ => simp [fb, c, p2d, getR]; ring
-  refine ⟨c, fb, 1, ⟨le_refl _, by norm_num [c]⟩, rfl, rfl, hlt, FnsLaws.real, by norm_num [c], ?_, ?_, ?_⟩
+  refine ⟨c, fb, 1, (by show Ev.DimOK 2; decide), rfl, rfl, hlt, FnsLaws.real, by norm_num [c], ?_, ?_, ?_⟩
   · intro a b ha hb
     show |fb (p2d c.lower c.upper a) - fb (p2d c.lower c.upper b)| ≤ 1 * dist2 a b
     rw [hfun a ha, hfun b hb]
